@@ -1,10 +1,11 @@
 (* Extraction of the UML class generator model (build/kmodel). *)
 From Coq Require Import Extraction ExtrOcamlBasic ExtrOcamlNativeString.
-From KV Require Import Lib.Str Lib.ODict Model.Vpp Model.Uml.
+From KV Require Import Lib.Str Lib.ODict Model.Vpp Model.Uml Spec.UmlSpec.
 
 Extraction Blacklist String List Bool.
 
 Separate Extraction
   Uml.files_of Uml.class_files Uml.kind_of Uml.ns_begin Uml.ns_end Uml.ops_of Uml.decls_of Uml.defs_of
   Uml.decl_line Uml.def_head Uml.signature Uml.wf_vis Uml.name_ok Uml.replace_all Uml.split2 Uml.lower
+  Uml.acyclic Uml.closed UmlSpec.files_hyp UmlSpec.distinct_paths UmlSpec.path_ok UmlSpec.expected_files
   UmlSrc.template_files UmlSrc.template_files_cs.
